@@ -2,6 +2,7 @@ SPECIFICATION MCSpec
 CONSTANTS
   Cases = {}
   W64 = 0
+  SplitFee = TRUE
   W32 = 4096
   BW = 1000
   Bases = {0}
